@@ -278,10 +278,29 @@ DOT_NAMES = [".", "..", "a.", ".a", "a.b", " .", ". ", "a .", "1.", ".1", "._"]
 
 
 def drv_names_dots(c, ctx, col):
-    """column names made of / containing dots: a back-quoted name is a name, never the '.' wildcard"""
-    name = c.pick(DOT_NAMES)
+    """column names made of / containing dots: a back-quoted name is a name, never the '.' wildcard.
+    Plus the empty name: the library rejects it inside Python fragments ("must not be empty"); as an operand it must
+    likewise be rejected or reference the column named '' -- not vanish from the formula without a trace."""
+    name = c.pick(DOT_NAMES + [""])
     form = c.pick(NAME_FORMS)
     col.interesting()
+    if name == "":
+        fname, tmpl = form[0], form[1]
+        formula = tmpl.replace("%s", "")
+        if form[2] is None:
+            col.count("empty-name-in-python-fragment(rejection accepted)")
+            return
+        try:
+            terms = get_terms(formula, icpt=False)
+            got = [[f.expr for f in t.factors] for t in terms.root]
+        except FormulaParsingError:
+            col.count("empty-name-rejected")
+            return
+        if not any("" in t for t in got):
+            col.violation("names/%s :: %r" % (fname, formula),
+                          {"formula": formula, "got_terms": got, "repro": "DefaultFormulaParser(include_intercept=False).get_terms(%r)" % formula},
+                          sig="empty-backticked-name-silently-dropped")
+        return
     check_name(col, name, form, no_intercept=True)
 
 
@@ -399,6 +418,8 @@ PY_EXPRS = [
     ("x if y else z", False), ("x + y", False), ("(x + y) * 2", False), ("x[0] + y.z", False), ("[t for t in x]", False),
     ("{k: v for k, v in x}", False), ("not x", False), ("x if y else \"a}b\"", False), ("`a b` + `c`", False),
     ("{1: 2}[x]", False), ("lambda: x", False), ("exp(`x`)", True), ("f(`a`, max, b)", True), ("`x` + exp(y)", False),
+    ("f(x, TQa bTQ)".replace("TQ", "'" * 3), True), ('f(x, """a b""")', True), ("f(x, TQa'bTQ)".replace("TQ", "'" * 3), True),
+    ('f(x, """a"b""")', True), ("f(x, TQa\"bTQ)".replace("TQ", "'" * 3), True),
 ]
 OPCH = set("+-*/%@&|^~<>=!.:")
 
@@ -468,6 +489,8 @@ class PyCase:
         feats = []
         if any(ch in s[1:-1] for s in self.strings for ch in "()[]{}`"):
             feats.append("bracket-or-backtick-inside-string-literal")
+        if any(s[:3] in ("'" * 3, '"' * 3) and s[0] in s[3:-3] for s in self.strings):
+            feats.append("triple-quoted-literal-containing-its-own-quote-character")
         self.feats_common = feats
         d, top_brace = 0, False
         for t in self.toks:
@@ -781,6 +804,75 @@ def drv_py_strings(c, ctx, col):
                       sig=lit_sig(formula, "content-changed"))
 
 
+# evaluated fragments whose callee / attribute base is not a plain name ---------------------------------------------
+
+#   expression, usable in bare (call-style) form
+EVAL_EXPRS = [
+    ("(a + b).abs()", False), ("(a - a.mean()).abs()", False), ("a[0].real", False), ("fs[0](a)", True), ("np.abs(a - b).max()", False),
+    ("g(a)(b)", True), ("(a * 2).clip(0, 3)", False), ("a.abs().max()", False), ("(lambda v: v + 1)(a)", False), ("[a, b][0]", False),
+    ("{'k': a}['k']", False), ("(a if True else b)", False), ("np.where(a > b, a, b)", True), ("(-a).abs()", False), ("d['k'](a)", True),
+    ("ns.f(a)", True), ("ns.fs[0](a)", True), ("(`a b` + b).abs()", False), ("fs[1](a - b)", True), ("(a + b).abs().clip(0, 2).round()", False),
+    ("a.abs().values[::-1]", False), ("(a.abs() + b.abs()).pow(2)", False), ("np.abs(a)[::-1]", True), ("g(a)(b).abs()", False),
+    ("(a, b)[1]", False), ("a.to_numpy().real", False), ("(a @ b) * a", False), ("fs[0](a)[0]", True), ("g(`a b`)(fs[0](b))", True),
+    ("(a + b).abs().max() - (a - b).abs().min()", False), ("fs[0](`a b` - a.mean()).max()", False), ("(a > 0).astype(float).mean()", False),
+    ("np.abs(a - b)", True), ("a.abs()", True), ("a + b", False),
+]
+EVAL_POSITIONS = ["%s", "%s + b", "b + %s", "%s:b", "y ~ %s", "%s - 1"]
+EVAL_A, EVAL_B, EVAL_AB, EVAL_Y = [1.5, -2.5, 4.0, -0.5], [2.0, 1.0, -3.0, 0.5], [3.0, 4.0, 5.0, 6.0], [0.0, 1.0, 0.0, 1.0]
+
+
+def drv_py_eval(c, ctx, col):
+    import numpy as np
+    import pandas as pd
+    from formulaic import model_matrix
+
+    expr, bare_ok = c.pick(EVAL_EXPRS)
+    bare = c.flag()
+    if bare and not bare_ok:
+        raise Skip()
+    pos = c.pick(EVAL_POSITIONS)
+    frag = expr if bare else "{" + expr + "}"
+    formula = pos % frag
+    df = pd.DataFrame({"a": EVAL_A, "b": EVAL_B, "a b": EVAL_AB, "y": EVAL_Y})
+    ns = type("NS", (), {"f": staticmethod(np.abs), "fs": [np.abs]})()
+    env = {"fs": [np.abs, np.sign], "g": lambda u: (lambda v: u * v), "d": {"k": np.abs}, "ns": ns}
+    # the value computed by plain Python / pandas
+    plain = dict(env, np=np, a=df["a"], b=df["b"], ab__=df["a b"])
+    want = np.broadcast_to(np.asarray(eval(expr.replace("`a b`", "ab__"), plain), dtype=float), (4,))
+    bcol = np.array(EVAL_B)
+    expect = {"%s": [want], "%s + b": [want, bcol], "b + %s": [want, bcol], "%s:b": [want * bcol], "y ~ %s": [want], "%s - 1": [want]}[pos]
+    col.interesting()
+    key = "py-eval :: %r" % formula
+    col.sample({"formula": formula})
+    detail = {"formula": formula, "expression": expr, "want_columns": [v.tolist() for v in expect],
+              "repro": "model_matrix(%r, DataFrame({'a': %r, 'b': %r, 'a b': %r, 'y': %r}), context={'fs': [np.abs, np.sign], "
+                       "'g': lambda u: (lambda v: u * v), 'd': {'k': np.abs}, 'ns': <object with f=np.abs, fs=[np.abs]>})"
+                       % (formula, EVAL_A, EVAL_B, EVAL_AB, EVAL_Y)}
+    try:
+        mm = model_matrix(formula, df, context=env)
+        rhs = mm.rhs if pos.startswith("y ~") else mm
+        again = rhs.model_spec.get_model_matrix(df, context=env)
+    except Exception as e:  # noqa
+        col.violation(key, dict(detail, error="%s: %s" % (type(e).__name__, str(e)[:300])), sig="valid-fragment-not-evaluated:" + type(e).__name__)
+        return
+    # the data columns the fragment reads are reported as required (a materializer may hand over only those)
+    src, names = LX.alias_backticks(expr)
+    tree = ast.parse(src.strip(), mode="eval")
+    bases = {id(n.value) for n in ast.walk(tree) if isinstance(n, ast.Attribute)}   # `a` in a.abs(): K3 of C17, not judged here
+    used = {names.get(n.id, n.id) for n in ast.walk(tree) if isinstance(n, ast.Name) and id(n) not in bases} & {"a", "b", "a b"}
+    reported = {str(v) for v in rhs.model_spec.required_variables}
+    if not used <= reported:
+        col.violation(key, dict(detail, columns_read=sorted(used), required_variables_reported=sorted(reported)),
+                      sig="columns-read-by-fragment-not-reported-as-required")
+        return
+    for which, m in (("", rhs), ("-on-reapplying-the-spec", again)):
+        cols = [m.iloc[:, j].to_numpy(dtype=float) for j in range(m.shape[1]) if m.columns[j] != "Intercept"]
+        ok = len(cols) == len(expect) and all(any(np.allclose(v, w) for v in cols) for w in expect)
+        if not ok:
+            col.violation(key, dict(detail, got_columns=[v.tolist() for v in cols]), sig="fragment-evaluates-to-wrong-values" + which)
+            return
+
+
 def wrap_first_argument(case):
     """tokens with the first positional argument / subscript of the first bracket wrapped in parentheses"""
     toks = case.toks
@@ -917,6 +1009,10 @@ def subchecks(tier, seed):
         Sub("py-strings-stateful", drv_py_strings_stateful, {"L": 2 if quick else 3}, shard_depth=3,
             bounds={"literal_body_atoms": LIT_ATOMS, "max_atoms": 2 if quick else 3, "quotes": ["'", '"'], "templates": STATEFUL_TEMPLATES,
                     "checks": "parsed content, evaluation, values, re-application of the fitted spec to new data"}),
+        Sub("py-eval", drv_py_eval, {}, shard_depth=1,
+            bounds={"expressions": [e for e, _ in EVAL_EXPRS], "forms": ["{E}", "E (call-style, where it is one token)"],
+                    "positions": EVAL_POSITIONS, "oracle": "columns equal the value of the expression computed by plain Python / pandas; "
+                                                            "same after re-applying the fitted spec"}),
         Sub("names-special", drv_names_special, {"names": special_names(2 if quick else 3), "L": 2 if quick else 3,
                                                  "forms_longest": [f for f in NAME_FORMS if f[0] in ("alone", "call", "brace-twice")]},
             shard_depth=1, bounds={"names": "all Python keywords and soft keywords; every string of length <= %d over %r"
